@@ -302,37 +302,169 @@ theorem absGet_units {s : St} {db : DB} {g : GDir} (hf : Files s db g)
     obtain ⟨r, hr, hv⟩ := hsim.hit k p hg
     simp only [valueAt_log hf hr, hv]
 
+/-! ## the ids under which the replay parks records are batch ids of log records -/
+
+theorem mem_pendingAdd_fst {P : Pend} {id : Nat} {x : Record × Pos} {e : Nat × List (Record × Pos)}
+    (he : e ∈ pendingAdd P id x) : e.1 = id ∨ ∃ e' ∈ P, e'.1 = e.1 := by
+  induction P with
+  | nil =>
+    simp only [pendingAdd, List.mem_singleton] at he
+    subst he
+    exact Or.inl rfl
+  | cons e0 t ih =>
+    obtain ⟨i, l⟩ := e0
+    simp only [pendingAdd] at he
+    by_cases c : i = id
+    · rw [if_pos c] at he
+      rcases List.mem_cons.mp he with he | he
+      · subst he; exact Or.inl c
+      · exact Or.inr ⟨e, List.mem_cons_of_mem _ he, rfl⟩
+    · rw [if_neg c] at he
+      rcases List.mem_cons.mp he with he | he
+      · subst he; exact Or.inr ⟨(i, l), by simp, rfl⟩
+      · rcases ih he with h | ⟨e', he', h⟩
+        · exact Or.inl h
+        · exact Or.inr ⟨e', List.mem_cons_of_mem _ he', h⟩
+
+/-- every id with parked records is the (non-zero) batch id of some record of the log -/
+def PendFrom (L : List (Record × Pos)) (R : Replay) : Prop :=
+  ∀ e ∈ R.pending, e.1 ≠ 0 ∧ ∃ x ∈ L, x.1.batch = e.1
+
+theorem PendFrom.replayRec {L : List (Record × Pos)} {R : Replay} (h : PendFrom L R) {r : Record} {p : Pos}
+    (hm : (r, p) ∈ L) : PendFrom L (Engine.replayRec R r p) := by
+  by_cases hb : r.batch = 0
+  · have e1 : Engine.replayRec R r p = R.apply r.key r.typ p := by unfold Engine.replayRec; rw [if_pos hb]
+    rw [e1]
+    intro e he
+    rw [Engine.Restart.apply_pending] at he
+    exact h e he
+  · by_cases ht : r.typ = 2
+    · rw [replayRec_fin R r p hb ht]
+      intro e he
+      exact h e (List.mem_filter.mp he).1
+    · rw [replayRec_tagged R r p hb ht]
+      intro e he
+      rcases mem_pendingAdd_fst he with e1 | ⟨e', he', e1⟩
+      · rw [e1]; exact ⟨hb, (r, p), hm, rfl⟩
+      · rw [← e1]; exact h e' he'
+
+theorem PendFrom.replayFrom {L : List (Record × Pos)} (l : List (Record × Pos)) :
+    ∀ {R : Replay}, PendFrom L R → (∀ x ∈ l, x ∈ L) → PendFrom L (replayFrom R l) := by
+  induction l with
+  | nil => intro R h _; exact h
+  | cons x t ih =>
+    intro R h hx
+    rw [replayFrom_cons]
+    exact ih (h.replayRec (r := x.1) (p := x.2) (hx x (by simp))) (fun y hy => hx y (by simp [hy]))
+
+theorem pendFrom_replayLog (L : List (Record × Pos)) : PendFrom L (replayLog L) := by
+  rw [replayLog_eq]
+  exact PendFrom.replayFrom L (fun e he => by simp [Replay.init] at he) (fun _ h => h)
+
+/-! ## flush marks after `Open` on a crash image -/
+
+open XixiKV.Engine.PolicyP.Dur in
+/-- `loadFile` keeps "the flush mark does not exceed the file" -/
+theorem loadFile_synced_le {r r' : Replay} {id : Nat} {f f' : FileSt} {tol : Bool}
+    (h : loadFile r id f tol = some (r', f')) (hle : f.synced ≤ f.bytes.size) : f'.synced ≤ f'.bytes.size := by
+  unfold loadFile at h
+  simp only [] at h
+  split at h
+  · cases h
+  · split at h
+    · cases h
+    · simp only [Option.some.injEq, Prod.mk.injEq] at h
+      obtain ⟨_, h2⟩ := h
+      rw [← h2]
+      split
+      · rename_i hlt
+        show min f.synced _ ≤ (f.bytes.extract 0 _).size
+        rw [ByteArray.size_extract]
+        omega
+      · exact hle
+
+/-- `Restart.openDB_crash`, also bounding the flush mark of the truncated last file -/
+theorem openDB_crash_le (s : St) (dir : String) (cfg : Cfg) (d : DirSt)
+    (gI : GDir) (id : Nat) (gl : GFile) (dataI : List (Nat × FileSt)) (fl : FileSt) (n : Nat)
+    (hdb : s.db = none) (hcfg : cfg.Valid)
+    (hd : s.world.get dir = some d) (hl : d.locked = false)
+    (hnomerge : s.world.get (mergeDirName dir) = none)
+    (hrecs : ∀ x ∈ gI ++ [(id, gl)], ∀ r ∈ x.2, RecOK r)
+    (hdata : d.data = dataI ++ [(id, fl)]) (hI : Matches dataI gI)
+    (hn : n ≤ (bytesOf gl).size) (hfl : fl.bytes = (bytesOf gl).extract 0 n)
+    (hsy : fl.synced ≤ fl.bytes.size) :
+    ∃ j, j ≤ gl.length ∧ (bytesOf (gl.take j)).size ≤ n ∧
+      (j < gl.length → n < (bytesOf (gl.take (j+1))).size) ∧
+      ∃ sy', sy' ≤ (bytesOf (gl.take j)).size ∧ openDB s dir cfg
+        = ({ world := s.world.set dir
+               { d with data := dataI ++ [(id, ⟨bytesOf (gl.take j), sy'⟩)], locked := true },
+             db := some (mkDB cfg dir (replayLog (logOf (gI ++ [(id, gl.take j)])))
+               (dataI ++ [(id, ⟨bytesOf (gl.take j), sy'⟩)])) }, .ok) := by
+  have hokI : ∀ x ∈ gI, ∀ r ∈ x.2, RecOK r := fun x hx => hrecs x (by simp [hx])
+  have hokl : ∀ r ∈ gl, RecOK r := hrecs (id, gl) (by simp)
+  obtain ⟨j, hj, hfit, hnfit, sy', hload⟩ :=
+    loadFile_cut (replayFrom Replay.init (logOf gI)) id gl fl.synced n hokl hn
+  have hsy' : sy' ≤ (bytesOf (gl.take j)).size := by
+    have := loadFile_synced_le hload (by
+      show fl.synced ≤ ((bytesOf gl).extract 0 n).size
+      rw [← hfl]; exact hsy)
+    exact this
+  refine ⟨j, hj, hfit, hnfit, sy', hsy', ?_⟩
+  have hfl' : fl = ⟨(bytesOf gl).extract 0 n, fl.synced⟩ := by
+    obtain ⟨b, sy⟩ := fl; simp only at hfl; rw [hfl]
+  have hli : loadIndex Replay.init 0 d.data
+      = some (replayLog (logOf (gI ++ [(id, gl.take j)])), dataI ++ [(id, ⟨bytesOf (gl.take j), sy'⟩)]) := by
+    rw [hdata, loadIndex_append_ghost dataI gI Replay.init [(id, fl)] hI hokI]
+    rw [hfl']
+    simp only [loadIndex, Nat.not_lt_zero, if_false, List.isEmpty_nil, hload]
+    rw [replayLog_eq, Restart.logOf_append, replayFrom_append]
+    simp [logOf]
+  exact openDB_scan s dir cfg d _ _ hdb (by omega) hd hl hnomerge (by rw [hdata]; simp) hli
+
 /-! ## `C03_crash_restart` from the file part of the invariant -/
 
+/-- the flush marks of a crash image are sane: no mark exceeds its file, and every file but the
+    last is marked completely flushed (before the crash these files WERE completely flushed and a
+    crash image keeps their bytes; the marks of an image are otherwise unconstrained by
+    `CrashImage`).  Needed only to re-establish the durability invariant after the restart. -/
+def SaneMarks (data : List (Nat × FileSt)) : Prop :=
+  OnlyLastCut data ∧ ∀ x ∈ data, x.2.synced ≤ x.2.bytes.size
+
+open XixiKV.Engine.PolicyP.Dur in
 /-- `C03.C03_crash_restart` with `Files` instead of `Inv` for the crashing handle: its index may
-    run ahead of the replay (flushed pieces of an open batch), which the restart does not see. -/
+    run ahead of the replay (flushed pieces of an open batch), which the restart does not see.
+    Additionally: with sane flush marks in the image the recovered handle satisfies the durability
+    invariant again. -/
 theorem crash_restart_files (s sc : St) (db : DB) (g : GDir) (cfg : Cfg) (d dc : DirSt)
     (hf : Files s db g) (hd : s.world.get db.dir = some d) (hlast : OnlyLastCut d.data)
     (hnodb : sc.db = none) (hdc : sc.world.get db.dir = some dc) (hunl : dc.locked = false)
     (himg : CrashImage d.data dc.data)
     (hnomerge : sc.world.get (mergeDirName db.dir) = none) (hcfg : cfg.Valid) :
     ∃ g' s' db', openDB sc db.dir cfg = (s', .ok) ∧ s'.db = some db' ∧ Inv s' db' g' ∧
-      db'.activeId = db.activeId ∧
+      db'.activeId = db.activeId ∧ db'.dir = db.dir ∧ db'.cfg = cfg ∧
       logOf g' <+: logOf g ∧
       (∀ gI id gl f m, g = gI ++ [(id, gl)] → d.data.getLast? = some (id, f) → m ≤ gl.length →
         (bytesOf (gl.take m)).size ≤ f.synced → logOf (gI ++ [(id, gl.take m)]) <+: logOf g') ∧
       (dc.data.map (fun x => (x.1, x.2.bytes.size)) = d.data.map (fun x => (x.1, x.2.bytes.size)) →
-        g' = g) := by
+        g' = g) ∧
+      (SaneMarks dc.data → DInv s' db') ∧
+      s'.world.get (mergeDirName db.dir) = none := by
   obtain ⟨d0, hd0, _, hm⟩ := hf.dir
   rw [hd] at hd0; cases hd0
   have hgne : g ≠ [] := getLast?_ne_none_of_map hf.active
   obtain ⟨gI, id, gl, dataI, f, fl, n, hg, hlastf, hdcdata, hI, hfb, hsn, hn, hfl⟩ :=
     crashImage_decomp d.data dc.data g hm hlast himg hgne
   subst hg
-  obtain ⟨j, hj, hfit, hnfit, s', db', hopen, hdb', _, _, hact, hix, _, hinv', _⟩ :=
-    C03.C03_open_crash sc db.dir cfg dc gI id gl dataI fl n hnodb hcfg hdc hunl hnomerge hf.asc
-      hf.recs hdcdata hI hn hfl
-  obtain ⟨hpre, hsync, hall⟩ := C03.C03_prefix gI id gl n j hj hnfit
   have hid : db.activeId = id := by
     have := hf.active
     rw [List.getLast?_concat] at this
     simpa using this.symm
-  refine ⟨gI ++ [(id, gl.take j)], s', db', hopen, hdb', hinv', by rw [hact, hid], hpre, ?_, ?_⟩
+  -- the two readings of `Open` on the image: the published one and the one with the mark bound
+  obtain ⟨j, hj, hfit, hnfit, s', db', hopen, hdb', hdir', hcfg'', hact, hix, ⟨d', sy', hd', hdata'⟩, hinv', hnm'⟩ :=
+    C03.C03_open_crash sc db.dir cfg dc gI id gl dataI fl n hnodb hcfg hdc hunl hnomerge hf.asc
+      hf.recs hdcdata hI hn hfl
+  obtain ⟨hpre, hsync, hall⟩ := C03.C03_prefix gI id gl n j hj hnfit
+  refine ⟨gI ++ [(id, gl.take j)], s', db', hopen, hdb', hinv', by rw [hact, hid], hdir', hcfg'', hpre, ?_, ?_, ?_, hnm'⟩
   · intro gI' id' gl' f' m hg' hlast' hm' hsz
     have hlen : (gI ++ [(id, gl)]).getLast? = (gI' ++ [(id', gl')]).getLast? := by rw [hg']
     rw [List.getLast?_concat, List.getLast?_concat] at hlen
@@ -353,5 +485,39 @@ theorem crash_restart_files (s sc : St) (db : DB) (g : GDir) (cfg : Cfg) (d dc :
       simp only [Option.some.injEq, Prod.mk.injEq, true_and] at h1; exact h1.symm
     rw [hfl, size_extract0 _ _ hn, hfb] at hsz
     exact (hall hsz).2
+  · intro hsane
+    obtain ⟨holder, hle⟩ := hsane
+    rw [hdcdata] at holder hle
+    have hflsy : fl.synced ≤ fl.bytes.size := hle (id, fl) (by simp)
+    obtain ⟨j2, _, _, _, sy2, hsy2, hopen2⟩ :=
+      openDB_crash_le sc db.dir cfg dc gI id gl dataI fl n hnodb hcfg hdc hunl hnomerge hf.recs hdcdata hI hn hfl hflsy
+    -- both describe the same result of `openDB`
+    rw [hopen] at hopen2
+    have hs' : s' = _ := (Prod.mk.inj hopen2).1
+    have hw : s'.world.get db.dir = some { dc with data := dataI ++ [(id, ⟨bytesOf (gl.take j2), sy2⟩)], locked := true } := by
+      rw [hs']; exact World.get_set_self _ _ _
+    rw [hd'] at hw
+    have hdd : d'.data = dataI ++ [(id, ⟨bytesOf (gl.take j2), sy2⟩)] := by
+      have := Option.some.inj hw
+      rw [this]
+    have hltI : ∀ x ∈ dataI, x.1 < id := by
+      intro x hx
+      have hids := Matches_ids hI
+      have hxm : x.1 ∈ gI.map (·.1) := by rw [← hids]; exact List.mem_map.mpr ⟨x, hx, rfl⟩
+      obtain ⟨y, hy, hyx⟩ := List.mem_map.mp hxm
+      have := (List.pairwise_append.mp hf.asc).2.2 y hy (id, gl) (by simp)
+      rw [← hyx]; exact this
+    have hdir : (dirOf s' db').data = dataI ++ [(id, ⟨bytesOf (gl.take j2), sy2⟩)] := by
+      rw [← hdir'] at hd'
+      rw [dirOf_eq hd', hdd]
+    refine ⟨⟨dataI, _, by rw [hdir, hact], by rw [hact]; exact hltI⟩, ?_, ?_⟩
+    · rw [hdir, OnlyLastCut_concat]
+      exact (OnlyLastCut_concat _ _).mp holder
+    · rw [hdir]
+      intro x hx
+      rcases List.mem_append.mp hx with hx | hx
+      · exact hle x (List.mem_append_left _ hx)
+      · simp only [List.mem_singleton] at hx
+        rw [hx]; exact hsy2
 
 end XixiKV.C03H
